@@ -20,6 +20,20 @@
 // (WaitNoConns), then the usual chain of fresh starts on the final state.  Sync mode: the units the
 // stopped run committed must be a gap-free prefix; all modes: the next start skips nothing.
 //
+// Cluster scenarios (cluster-ooo-N, cluster-inproc-N; internal/bisweep/cluster.go): parallel mode
+// against a 3-node cluster double with 2–4 lanes, output built as cmd/syncer.go does for a cluster
+// target (redis.FixTopology, VerifNewOutput).  (1) the connection carrying unit k is held at its
+// node (ReplyDelay: before the transaction runs, or after EXEC before the reply) while 1–2 later
+// units on other nodes and lanes are committed and acknowledged; a frontier flush gets three
+// intervals to fire (the wait ends early on the logical event "frontier write seen"); stop, the
+// held bytes are discarded (node killed and revived); 1–2 fresh instances, the last replays the
+// rest.  (2) unit k's EXEC is answered with an error (Inject) or executed and its connection
+// dropped (DropReply) after the later units were acknowledged; Send fails; StartPoint + Send on
+// the SAME RedisOutput (its first StartPoint had seen only the root checkpoint), then a fresh
+// instance.  Which unit, node, lane, lane count, hold point: PRNG / scenario index.  Oracle: every
+// stored frontier and every resume offset covers only committed units, unit boundary, never
+// backwards, no unit missing at the end (repeats are allowed in parallel mode).
+//
 // Oracle (bisweep.Judge), per DESIGN C14: resume offset R of every start ∈ {unit ends} ∪ {stream
 // start}; every unit ending at or before R is committed (complete target transaction: all business
 // commands of the unit + its record [+ index]); sync mode: R = end of the last committed unit and
@@ -50,6 +64,7 @@ package main
 
 import (
 	"os"
+	"runtime"
 	"strconv"
 	"time"
 
@@ -68,14 +83,15 @@ func main() {
 			"bookkeeping state they leave (bisync keys incl. journal/index/frontier; one chain of 2–4 fresh tool starts per distinct state, 1 in 4 chains in another replay mode = namespace "+
 			"switch/migration); restarted runs: every state inside start-up bookkeeping/recovery/migration and between starts exhaustively, traffic-phase states by PRNG (thorough: a third level, PRNG third of its states); exhaustive per observed request sequence, not over schedules; RebuildBisyncFrontier on all "+
 			"subsets of ≤10 surviving journal records (observed states + synthetic windows); clean-stop schedule: PRNG(seed,i) → cancel of the Send context at stream byte n / target request k in mid-traffic, "+
-			"target drained, fresh-start chain; distinct = (mode[, other-db], modes of the restarted starts, depth, where the prefix falls: in-unit / between-units / "+
+			"target drained, fresh-start chain; cluster scenarios: PRNG(seed,i) → (held/failing unit, node and lane of every unit, 2–4 lanes, hold point, flush before) for out-of-order acknowledgement + stop and for "+
+			"failed unit + in-process restart; distinct = (mode[, other-db], modes of the restarted starts, depth, where the prefix falls: in-unit / between-units / "+
 			"between-frontier-save-and-journal-delete / inside-recovery[/journal-cleanup] / idle / after-stop, whether the resumed run repeated units)")
 	run.Watchdog(110 * time.Minute)
 	run.Assume("target state after a crash = effects of a prefix of the requests the double executed; an open MULTI block is discarded (fakeredis); business writes are logged, not executed")
 	run.Assume("a restarted instance runs syncer.VerifNewOutput (= syncer.newOutput) against a source double reporting a fixed replication id, then StartPoint, then Send from the returned offset")
 	run.Assume("standalone target: one slot tag, one lane; unit i of the generator = i-th stand-alone write or non-empty MULTI/EXEC group (SELECT/PING/administrative commands/empty transactions form no unit)")
 	run.Assume("mode switches across recovery families are only provoked from states that hold a migration seed (latest record / frontier / journal from seq 1); the refusal to migrate an unseeded namespace is not judged")
-	run.Assume("cluster target (parallel lanes, out-of-order completion) is not exercised: bisweep.Target is the plug-in point")
+	run.Assume("cluster target: only the two directed out-of-order schedules (held unit + stop; failed unit + in-process restart) on a stable 3-node double, single-key units; no request-prefix sweep there (a start scans 16384 slot tags)")
 	run.MinDistinct(6)
 
 	d := bisweep.NewDriver(syncer.VerifNewOutput)
@@ -102,13 +118,24 @@ func main() {
 		depth = 3
 	}
 	// the cluster scenarios (CPU-bound: every start scans 16384 slot tags) run alongside the sweep
+	// (after it when few processors are available: starving the tool instances only trips watchdogs)
 	clusterDone := make(chan struct{})
-	go func() {
+	cluster := func() {
 		defer close(clusterDone)
 		bisweep.ClusterScenarios(run, bisweep.ClusterOptions{NOutOfOrder: nOoo, NInProcess: nInproc, Workers: 6, Driver: d})
-	}()
+	}
+	few := runtime.GOMAXPROCS(0) < 8
+	if few && links > 8 {
+		links = 8
+	}
+	if !few {
+		go cluster()
+	}
 	bisweep.Explore(run, bisweep.Options{Prop: "C14", NBase: nBase, Depth: depth, DeepPct: 12, Workers: 6,
 		Driver: d, Factory: bisweep.NewStandalone, Directed: directed, NStops: nStops, StopLinks: links})
+	if few {
+		cluster()
+	}
 	<-clusterDone
 	run.Exit()
 }
